@@ -240,3 +240,11 @@ def s_clip_allclose(a, b, v):
     d = np.clip(b, 1, None)
     flags = [np.allclose(a, a + 1e-9), np.allclose(a, a + 1e-3), np.allclose(b, b * (1 + 1e-6)), bool(np.allclose(v, v))]
     return np.hstack([c, d, np.array([1 if f else 0 for f in flags]), np.array([np.clip(7, -1, 3), np.clip(-7, -1, 3)])])
+
+
+def s_int_store_truncates(a, b, v):
+    out = np.arange(8)
+    out[1:4] = np.array([2.7, -2.7, 0.5]) * (v + 4)
+    out[5] = -7 / 2
+    out[6] = 9 / 2
+    return out
